@@ -12,10 +12,17 @@
 (* MethodExcluded = TRUE models the pinned tree, which excludes INVITE and  *)
 (* SUBSCRIBE from the lookup by method name (defect D17).                   *)
 (* Dialog identity is abstract here (C16 makes both directions one key).    *)
+(* Time: all dialogs are within their lifetime (C15 is about the rest), but  *)
+(* the PROXY may have been up for longer than a dialog timeout since the     *)
+(* last purge of the pin table (UptimePasses); the next pin that is stored   *)
+(* then runs the purge (backend.go AddBackend / cleanExpiredDialog), which   *)
+(* removes expired pins only - none here.  PurgeEvictsLive = TRUE models a   *)
+(* purge that measures expiry against the re-armed purge time instead of     *)
+(* the clock: it evicts every pin but the one just stored.                   *)
 (***************************************************************************)
 EXTENDS PoolOps
 
-CONSTANTS Dialogs, Backs, MethodExcluded
+CONSTANTS Dialogs, Backs, MethodExcluded, PurgeEvictsLive
 
 Methods == {"ACK", "BYE", "INVITE", "UPDATE", "INFO", "NOTIFY", "SUBSCRIBE"}
 
@@ -23,9 +30,10 @@ VARIABLES idx,       \* rotation index of the pool (membership fixed in this mod
           pins,      \* the code's dialog pins        : Dialog -|-> backend
           inv,       \* history: who received the initial INVITE of a dialog (it is the one that answers)
           answered,  \* history (declarative): Dialog -|-> backend that answered / whose SUBSCRIBE was answered
-          last       \* the last dispatch: [dlg, method, tgt, origin]
+          last,      \* the last dispatch: [dlg, method, tgt, origin]
+          due        \* more than a dialog timeout has passed since the pin table was last purged
 
-vars == <<idx, pins, inv, answered, last>>
+vars == <<idx, pins, inv, answered, last, due>>
 
 CONSTANT BackSeq     \* Backs as a sequence (registration order)
 
@@ -33,7 +41,10 @@ Put(f, k, v) == [x \in DOMAIN f \cup {k} |-> IF x = k THEN v ELSE f[x]]
 Drop(f, k) == [x \in DOMAIN f \ {k} |-> f[x]]
 NoDispatch == [dlg |-> "-", method |-> "-", tgt |-> "-", origin |-> "-"]
 
-Init == idx = 0 /\ pins = <<>> /\ inv = <<>> /\ answered = <<>> /\ last = NoDispatch
+Init == idx = 0 /\ pins = <<>> /\ inv = <<>> /\ answered = <<>> /\ last = NoDispatch /\ due = FALSE
+\* storing pin k runs the purge when one is due
+AfterPurge(p, k) == IF due /\ PurgeEvictsLive THEN [x \in {k} |-> p[x]] ELSE p
+UptimePasses == due' = TRUE /\ UNCHANGED <<idx, pins, inv, answered, last>>
 
 PoolPick == SeqDispatch(BackSeq, idx)
 
@@ -42,21 +53,21 @@ Initial(d) == /\ d \notin DOMAIN inv
               /\ idx' = PoolPick.idx
               /\ inv' = Put(inv, d, PoolPick.tgt)
               /\ last' = [dlg |-> d, method |-> "INVITE0", tgt |-> PoolPick.tgt, origin |-> "pool"]
-              /\ UNCHANGED <<pins, answered>>
+              /\ UNCHANGED <<pins, answered, due>>
 Unrelated == /\ idx' = PoolPick.idx
              /\ last' = [dlg |-> "-", method |-> "OPTIONS", tgt |-> PoolPick.tgt, origin |-> "pool"]
-             /\ UNCHANGED <<pins, inv, answered>>
+             /\ UNCHANGED <<pins, inv, answered, due>>
 
 \* the backend that holds the dialog answers the INVITE (or a re-INVITE) with both tags
 Answer(d) == /\ d \in DOMAIN inv
-             /\ pins' = Put(pins, d, inv[d])
+             /\ pins' = AfterPurge(Put(pins, d, inv[d]), d) /\ due' = FALSE
              /\ answered' = IF d \in DOMAIN answered THEN answered ELSE Put(answered, d, inv[d])
              /\ last' = NoDispatch
              /\ UNCHANGED <<idx, inv>>
 
 \* a SUBSCRIBE issued by backend b is answered from outside: the response passes towards b
 SubscribeAnswered(d, b) == /\ d \notin DOMAIN answered /\ d \notin DOMAIN inv
-                           /\ pins' = Put(pins, d, b)
+                           /\ pins' = AfterPurge(Put(pins, d, b), d) /\ due' = FALSE
                            /\ answered' = Put(answered, d, b)
                            /\ inv' = Put(inv, d, b)
                            /\ last' = NoDispatch
@@ -72,7 +83,7 @@ InDialog(d, m) ==
           /\ last' = [dlg |-> d, method |-> m, tgt |-> tgt, origin |-> IF hit THEN "pin" ELSE "pool"]
           /\ inv' = IF m = "INVITE" THEN Put(inv, d, tgt) ELSE inv      \* whoever gets the re-INVITE answers it
           /\ pins' = pins
-          /\ UNCHANGED answered
+          /\ UNCHANGED <<answered, due>>
 
 \* NOTIFY with Subscription-State: terminated - routed like any in-dialog request, then the pin is dissolved
 NotifyTerminated(d) ==
@@ -83,19 +94,19 @@ NotifyTerminated(d) ==
           /\ last' = [dlg |-> d, method |-> "NOTIFY", tgt |-> tgt, origin |-> IF hit THEN "pin" ELSE "pool"]
     /\ pins' = Drop(pins, d)
     /\ answered' = Drop(answered, d)
-    /\ UNCHANGED inv
+    /\ UNCHANGED <<inv, due>>
 
 \* the backend answers a BYE of the dialog (any status)
 ByeAnswered(d) == /\ d \in DOMAIN inv
                   /\ pins' = Drop(pins, d)
                   /\ answered' = Drop(answered, d)
                   /\ last' = NoDispatch
-                  /\ UNCHANGED <<idx, inv>>
+                  /\ UNCHANGED <<idx, inv, due>>
 
 Next == \/ \E d \in Dialogs : Initial(d) \/ Answer(d) \/ ByeAnswered(d) \/ NotifyTerminated(d)
         \/ \E d \in Dialogs, m \in Methods : InDialog(d, m)
         \/ \E d \in Dialogs, b \in Backs : SubscribeAnswered(d, b)
-        \/ Unrelated
+        \/ Unrelated \/ UptimePasses
 Spec == Init /\ [][Next]_vars
 
 ---------------------------------------------------------------------------
